@@ -83,14 +83,14 @@ pub fn catalogue() -> Vec<Entry> {
         e::<i64>("i64", C18, 1, 8),
         e::<usize>("usize", C18, 1, 8),
         e::<isize>("isize", C18, 1, 8),
-        e::<bool>("bool", C18, 2, 8),
-        e::<String>("String", C18, 4, 8),
+        w::<bool>("bool", C18, 2, 8),
+        w::<String>("String", C18, 4, 8),
         e::<BigUint>("BigUint", C18, 3, 8),
         e::<ark_ff::BigInt<4>>("BigInt<4>", C18, 2, 8),
         e::<ark_ff::BigInt<1>>("BigInt<1>", C18, 1, 8),
         e::<Option<u64>>("Option<u64>", C18, 2, 8),
         e::<Option<Vec<u16>>>("Option<Vec<u16>>", C18, 2, 8),
-        e::<Option<bool>>("Option<bool>", C18, 1, 8),
+        w::<Option<bool>>("Option<bool>", C18, 1, 8),
         e::<()>("()", C18, 1, 8),
         e::<(u8,)>("(u8,)", C18, 1, 8),
         e::<(u8, String)>("(u8,String)", C18, 2, 8),
@@ -105,7 +105,7 @@ pub fn catalogue() -> Vec<Entry> {
         e::<[String; 2]>("[String;2]", C18, 1, 8),
         e::<Vec<u8>>("Vec<u8>", C18, 6, 8),
         e::<Vec<u64>>("Vec<u64>", C18, 4, 8),
-        e::<Vec<bool>>("Vec<bool>", C18, 2, 8),
+        w::<Vec<bool>>("Vec<bool>", C18, 2, 8),
         e::<Vec<String>>("Vec<String>", C18, 3, 8),
         e::<Vec<Vec<u8>>>("Vec<Vec<u8>>", C18, 3, 8),
         e::<Vec<Option<u32>>>("Vec<Option<u32>>", C18, 2, 8),
@@ -162,6 +162,15 @@ pub fn catalogue() -> Vec<Entry> {
         e::<Vec<[G1A; 2]>>("Vec<[G1Affine;2]>", C18_10, 1, 1),
         e::<Vec<Vec<G1A>>>("Vec<Vec<G1Affine>>", C18_10, 1, 1),
         e::<Vec<jub::Affine>>("Vec<EdwardsAffine>", C18_10, 2, 1),
+        e::<Vec<jub::Projective>>("Vec<EdwardsProjective>", C18_10, 2, 1),
+        e::<[G1P; 2]>("[G1Projective;2]", C18_10, 1, 1),
+        e::<Option<G1P>>("Option<G1Projective>", C18_10, 1, 1),
+        e::<BTreeMap<u8, G1P>>("BTreeMap<u8,G1Projective>", C18_10, 1, 1),
+        e::<BTreeSet<u16>>("BTreeSet<u16>", C18, 1, 8),
+        e::<(Vec<G2A>, Option<jub::Affine>)>("(Vec<G2Affine>,Option<EdwardsAffine>)", C18_10, 1, 1),
+        e::<WithConst<3>>("derive WithConst<3>", C18, 2, 8),
+        e::<Deep>("derive Deep", C18_10, 2, 1),
+        e::<Single>("derive Single", C18, 1, 8),
         e::<CompressedChecked<G1A>>("CompressedChecked<G1Affine>", C18_10, 2, 1),
         e::<UncompressedChecked<G1A>>("UncompressedChecked<G1Affine>", C18_10, 2, 1),
         e::<CompressedUnchecked<G1A>>("CompressedUnchecked<G1Affine>", C18_10, 2, 1),
@@ -207,5 +216,20 @@ pub fn catalogue() -> Vec<Entry> {
         w::<ark_ec::pairing::PairingOutput<bls::Bls12_381>>("PairingOutput<Bls12_381>", F, 1, 1),
     ];
     v.extend(crate::more::more());
+    v.extend(crate::more::flags_entries());
+    // entries over very large fields / cubic-extension G2 cost tens of milliseconds per
+    // subgroup decision: they keep weight 1 while everything else is scaled up
+    const HEAVY: &[&str] = &[
+        "cp6_782", "mnt6_753", "curves mnt4_753", "mnt4_753::G", "bw6_767", "bw6_761::G", "ed_on_mnt4_753", "ed_on_cp6_782",
+        "ed_on_bw6_761", "PairingOutput<MNT4_298>", "mnt6_298::G2", "mnt4_298::G2", "PairingOutput<Bn254>", "PairingOutput<Bls12_381>",
+    ];
+    for e in v.iter_mut() {
+        if HEAVY.iter().any(|h| e.name.contains(h)) {
+            e.weight = 1;
+            e.hooks.budget = 0;
+        } else {
+            e.weight *= 6;
+        }
+    }
     v
 }
